@@ -1010,17 +1010,21 @@ func parseGetEntriesRange(r *http.Request, maxRange, logID int64) (int64, int64,
 		return 0, 0, fmt.Errorf("start (%d) and end (%d) is not a valid range", start, end)
 	}
 
-	count := end - start + 1
-	if count > maxRange {
+	// span is count-1: computing the count itself (end - start + 1) overflows
+	// for end == math.MaxInt64 and start == 0.
+	span := end - start
+	if span >= maxRange {
 		end = start + maxRange - 1
 	}
-	if *alignGetEntries && count >= maxRange {
+	if *alignGetEntries && span >= maxRange-1 {
 		// Truncate a "maximally sized" get-entries request at the next multiple
 		// of MaxGetEntriesAllowed.
 		// This is intended to coerce large runs of get-entries requests (e.g. by
 		// monitors/mirrors) into all requesting the same start/end ranges,
 		// thereby making the responses more readily cacheable.
-		d := (end + 1) % maxRange
+		// (end%maxRange + 1) % maxRange is (end + 1) % maxRange without
+		// overflowing when end == math.MaxInt64.
+		d := (end%maxRange + 1) % maxRange
 		end = end - d
 		alignedGetEntries.Inc(strconv.FormatInt(logID, 10), strconv.FormatBool(d == 0))
 	}
